@@ -1514,7 +1514,7 @@ func TestVerifC17Reconcile(t *testing.T) {
 // job, referenced by name only (empty uid - legal) or by name + uid. Every oracle clause is judged against the
 // object in the store at that instant (c17Classify).
 func TestVerifC17RealInterpreter(t *testing.T) {
-	kit.Run(t, kit.Config{Property: "C17", Unit: "real-interpreter", Quick: 130, Thorough: 5000,
+	kit.Run(t, kit.Config{Property: "C17", Unit: "real-interpreter", Quick: 180, Thorough: 6000,
 		Rule: "as unit reconcile, but with the real reservation interpreter over the fake API store (no preemption); 1-2 jobs, TTL unset 15% / 15s 55% / 1h 30%; reservation created by the controller 35% / user-supplied and referenced by name only 40% / by name+uid 25% (initially pending, scheduled on another node or on the pod's node); reservation events are status writes into the store; every single write (job writes, Reservation create/update/delete, Evict) fails once not-applied and once applied-with-lost-response"},
 		func(c *kit.Case) { c17RunCase(c, c17GenCfgReal(c.R)) })
 }
